@@ -222,13 +222,37 @@ func ruleV5(r *Run) {
 								idx = i
 							}
 						}
+						jumped := false
 						for _, c := range x.List[idx+1:] {
 							if _, isRet := c.(*ast.ReturnStmt); isRet {
 								return nil, false // leaves the function without touching the window
 							}
+							if br, isBr := c.(*ast.BranchStmt); isBr && br.Label == nil && br.Tok == token.CONTINUE {
+								// on to the next iteration of the innermost loop: post statement, condition, body
+								for l := parents[ast.Node(x)]; l != nil; l = parents[l] {
+									if fs, ok := l.(*ast.ForStmt); ok {
+										if fs.Post != nil && touches(fs.Post) {
+											return fs.Post, true
+										}
+										if fs.Cond != nil && touches(fs.Cond) {
+											return fs.Cond, true
+										}
+										if t := firstTouch(fs.Body); t != nil {
+											return t, true
+										}
+										cur = fs
+										jumped = true
+										break
+									}
+								}
+								break
+							}
 							if t := firstTouch(c); t != nil {
 								return t, true
 							}
+						}
+						if jumped {
+							continue
 						}
 						cur = x
 					case *ast.ForStmt:
